@@ -109,8 +109,10 @@ def run_script(kind, phases, resets, bound_s, yielding=False):
             prev_mode = mode_now
             if pending and now >= pending[0][0]:
                 _, label = pending.pop(0)
-                in_connect = any(fn == "_connect" for fn, _ in stack_sig(pump))
-                res["inputs"].append((round(now, 2), "reset!" if in_connect else "reset"))
+                sig = stack_sig(pump)
+                in_connect = any(fn == "_connect" for fn, _ in sig)
+                in_locate = any(fn in ("discover", "async_locate_spas") for fn, _ in sig)
+                res["inputs"].append((round(now, 2), "reset!" if in_connect else ("resetL" if in_locate else "reset")))
                 await m.async_reset()
                 res["samples"].append((round(loop.time(), 2), "after-reset", record()))
             st = str(m.spa_state).split(".")[-1]
